@@ -35,19 +35,24 @@ VARIABLES st,          \* "none" (no connection yet) | "OpenSent" | "OpenConfirm
 vars == <<st, conn, attached, adjIn, out, hold, nsess, pol, hist>>
 
 (* local configurations *)
-CfgDef == [ ebgp   |-> [ibgp |-> FALSE, hold |-> 90, role |-> "none",     strict |-> FALSE, addpath |-> FALSE, rrc |-> "no", other |-> FALSE],
-            ibgp   |-> [ibgp |-> TRUE,  hold |-> 90, role |-> "none",     strict |-> FALSE, addpath |-> FALSE, rrc |-> "no", other |-> FALSE],
-            hold3  |-> [ibgp |-> FALSE, hold |-> 3,  role |-> "none",     strict |-> FALSE, addpath |-> FALSE, rrc |-> "no", other |-> FALSE],
-            cust   |-> [ibgp |-> FALSE, hold |-> 90, role |-> "customer", strict |-> FALSE, addpath |-> FALSE, rrc |-> "no", other |-> FALSE],
-            custS  |-> [ibgp |-> FALSE, hold |-> 90, role |-> "customer", strict |-> TRUE,  addpath |-> FALSE, rrc |-> "no", other |-> FALSE],
-            ap     |-> [ibgp |-> FALSE, hold |-> 90, role |-> "none",     strict |-> FALSE, addpath |-> TRUE, rrc |-> "no", other |-> FALSE],
+CfgDef == [ ebgp   |-> [ibgp |-> FALSE, hold |-> 90, role |-> "none",     strict |-> FALSE, addpath |-> FALSE, rrc |-> "no", other |-> FALSE, active |-> FALSE],
+            ibgp   |-> [ibgp |-> TRUE,  hold |-> 90, role |-> "none",     strict |-> FALSE, addpath |-> FALSE, rrc |-> "no", other |-> FALSE, active |-> FALSE],
+            hold3  |-> [ibgp |-> FALSE, hold |-> 3,  role |-> "none",     strict |-> FALSE, addpath |-> FALSE, rrc |-> "no", other |-> FALSE, active |-> FALSE],
+            cust   |-> [ibgp |-> FALSE, hold |-> 90, role |-> "customer", strict |-> FALSE, addpath |-> FALSE, rrc |-> "no", other |-> FALSE, active |-> FALSE],
+            custS  |-> [ibgp |-> FALSE, hold |-> 90, role |-> "customer", strict |-> TRUE,  addpath |-> FALSE, rrc |-> "no", other |-> FALSE, active |-> FALSE],
+            ap     |-> [ibgp |-> FALSE, hold |-> 90, role |-> "none",     strict |-> FALSE, addpath |-> TRUE, rrc |-> "no", other |-> FALSE, active |-> FALSE],
             \* the peer is a route reflector client: the cluster id (default = the router id, or configured) takes part in loop
             \* detection exactly while the session is attached
-            rr     |-> [ibgp |-> TRUE,  hold |-> 90, role |-> "none",     strict |-> FALSE, addpath |-> FALSE, rrc |-> "default", other |-> FALSE],
-            rrcid  |-> [ibgp |-> TRUE,  hold |-> 90, role |-> "none",     strict |-> FALSE, addpath |-> FALSE, rrc |-> "explicit", other |-> FALSE],
+            rr     |-> [ibgp |-> TRUE,  hold |-> 90, role |-> "none",     strict |-> FALSE, addpath |-> FALSE, rrc |-> "default", other |-> FALSE, active |-> FALSE],
+            rrcid  |-> [ibgp |-> TRUE,  hold |-> 90, role |-> "none",     strict |-> FALSE, addpath |-> FALSE, rrc |-> "explicit", other |-> FALSE, active |-> FALSE],
             \* a session with another peer of the same VRF (same local AS) is established before and throughout the behaviour: the local
             \* AS keeps taking part in loop detection whatever this session does
-            ebgp2  |-> [ibgp |-> FALSE, hold |-> 90, role |-> "none",     strict |-> FALSE, addpath |-> FALSE, rrc |-> "no", other |-> TRUE] ]
+            ebgp2  |-> [ibgp |-> FALSE, hold |-> 90, role |-> "none",     strict |-> FALSE, addpath |-> FALSE, rrc |-> "no", other |-> TRUE, active |-> FALSE],
+            \* the peer is not passive: its own FSM dials, gets the connection handed over (Connect) and is used again for the next
+            \* session after a short pause - nothing of the previous session may survive in it
+            ebgpA  |-> [ibgp |-> FALSE, hold |-> 90, role |-> "none",     strict |-> FALSE, addpath |-> FALSE, rrc |-> "no", other |-> FALSE, active |-> TRUE],
+            ibgpA  |-> [ibgp |-> TRUE,  hold |-> 90, role |-> "none",     strict |-> FALSE, addpath |-> FALSE, rrc |-> "no", other |-> FALSE, active |-> TRUE],
+            apA    |-> [ibgp |-> FALSE, hold |-> 90, role |-> "none",     strict |-> FALSE, addpath |-> TRUE,  rrc |-> "no", other |-> FALSE, active |-> TRUE] ]
 L == CfgDef[LocalCfg]
 RouterID == 100
 LocalAS == 65000
